@@ -358,7 +358,7 @@ func (e *c03Eng) doOp(i int, op c03Op) {
 		crcBad := false
 		if err := startNode(s, n, &crcBad); err != nil {
 			if !e.crashed() {
-				violate(c, "reopen-failed", "clean close then open failed at op %d: %v", i, err)
+				stViolate(c, "reopen-failed", "clean close then open failed at op %d: %v", i, err)
 			}
 			return
 		}
@@ -366,7 +366,7 @@ func (e *c03Eng) doOp(i int, op c03Op) {
 			return
 		}
 		if err := settle(s, n); err != nil && !e.crashed() {
-			violate(c, "reopen-no-leader", "node did not become ready after clean reopen at op %d: %v", i, err)
+			stViolate(c, "reopen-no-leader", "node did not become ready after clean reopen at op %d: %v", i, err)
 		}
 		c.Probe("clean_reopen")
 		if crcBad && !e.crashed() && !c.Failed() {
@@ -382,7 +382,7 @@ func (e *c03Eng) checkState(phase string) (string, bool) {
 	c := e.c
 	d, err := e.s.DumpNode(e.n)
 	if err != nil {
-		violate(c, "dump-failed", "%s: database unreadable after restart: %v", phase, err)
+		stViolate(c, "dump-failed", "%s: database unreadable after restart: %v", phase, err)
 		return "", false
 	}
 	rows, has, err := parseT(d)
@@ -430,7 +430,7 @@ func (e *c03Eng) checkState(phase string) (string, bool) {
 			}
 		}
 	}
-	violate(c, class, "%s (crash at %s): %s; %d candidate state(s), first: %s", phase, e.at, firstDiff, len(e.cands), modelSig(e.cands[0]))
+	stViolate(c, class, "%s (crash at %s): %s; %d candidate state(s), first: %s", phase, e.at, firstDiff, len(e.cands), modelSig(e.cands[0]))
 	return d, false
 }
 
@@ -513,12 +513,12 @@ func (e *c03Eng) recoverFromImage() {
 	}
 	e.h.armed = false
 	if err != nil {
-		violate(c, "restart-failed", "node does not open after crash at %s: %v", e.at, err)
+		stViolate(c, "restart-failed", "node does not open after crash at %s: %v", e.at, err)
 		return
 	}
 	fast := storeStat("num_restores_start_skipped") > skipped0
 	if err := settle(s, n); err != nil {
-		violate(c, "restart-no-leader", "node did not become ready after crash at %s: %v", e.at, err)
+		stViolate(c, "restart-no-leader", "node did not become ready after crash at %s: %v", e.at, err)
 		return
 	}
 	if crcBad {
@@ -552,21 +552,21 @@ func (e *c03Eng) recoverFromImage() {
 		}
 		removeFingerprint(n.Dir)
 		if err := startNode(s, n, nil); err != nil {
-			violate(c, "restart-failed", "rebuild-path restart of the image (crash at %s) failed: %v", e.at, err)
+			stViolate(c, "restart-failed", "rebuild-path restart of the image (crash at %s) failed: %v", e.at, err)
 			return
 		}
 		if err := settle(s, n); err != nil {
-			violate(c, "restart-no-leader", "rebuild-path restart not ready: %v", err)
+			stViolate(c, "restart-no-leader", "rebuild-path restart not ready: %v", err)
 			return
 		}
 		d2, err := s.DumpNode(n)
 		if err != nil {
-			violate(c, "dump-failed", "rebuild-path database unreadable: %v", err)
+			stViolate(c, "dump-failed", "rebuild-path database unreadable: %v", err)
 			return
 		}
 		c.Probe("reference_rebuild_compared")
 		if d1 != d2 {
-			violate(c, "fast-vs-rebuild-mismatch", "crash at %s: fast-path restart and rebuild from snapshot+log of the same image differ: %s", e.at, sim.FirstDiff(d1, d2))
+			stViolate(c, "fast-vs-rebuild-mismatch", "crash at %s: fast-path restart and rebuild from snapshot+log of the same image differ: %s", e.at, sim.FirstDiff(d1, d2))
 			return
 		}
 		os.RemoveAll(keep)
@@ -604,7 +604,7 @@ func (e *c03Eng) aftermath() {
 		var err error
 		s.Do(fmt.Sprintf("aftermath w %d", r.V), 120*time.Second, func() { err = execStmts(n, []string{insertSQL(r)}, false) })
 		if err != nil {
-			violate(c, "write-after-restart-failed", "write after recovery (crash at %s) failed: %v", e.at, err)
+			stViolate(c, "write-after-restart-failed", "write after recovery (crash at %s) failed: %v", e.at, err)
 			return
 		}
 		e.applyOp(true, func(m []mrow) []mrow { return append(m, r) })
@@ -629,11 +629,11 @@ func (e *c03Eng) exitOnCRC(phase string) bool {
 	removeFingerprint(n.Dir)
 	crcBad := false
 	if err := startNode(s, n, &crcBad); err != nil {
-		violate(c, "restart-failed", "%s: node does not open after CRC exit: %v", phase, err)
+		stViolate(c, "restart-failed", "%s: node does not open after CRC exit: %v", phase, err)
 		return false
 	}
 	if err := settle(s, n); err != nil {
-		violate(c, "restart-no-leader", "%s: node not ready after CRC exit: %v", phase, err)
+		stViolate(c, "restart-no-leader", "%s: node not ready after CRC exit: %v", phase, err)
 		return false
 	}
 	return true
@@ -654,14 +654,14 @@ func (e *c03Eng) cleanReopenCheck(phase string, snapOnClose bool) {
 		sk := storeStat("num_restores_start_skipped")
 		crcBad := false
 		if err := startNode(s, n, &crcBad); err != nil {
-			violate(c, "reopen-failed", "%s: open after clean close failed (pass %d): %v", phase, pass, err)
+			stViolate(c, "reopen-failed", "%s: open after clean close failed (pass %d): %v", phase, pass, err)
 			return
 		}
 		if storeStat("num_restores_start_skipped") > sk {
 			c.Probe("clean_reopen_fast_path")
 		}
 		if err := settle(s, n); err != nil {
-			violate(c, "reopen-no-leader", "%s: not ready after clean reopen (pass %d): %v", phase, pass, err)
+			stViolate(c, "reopen-no-leader", "%s: not ready after clean reopen (pass %d): %v", phase, pass, err)
 			return
 		}
 		if crcBad && !e.exitOnCRC(phase) {
